@@ -43,7 +43,7 @@ C04(m, st) ==
       joins == {t \in ObsTables(st) : \E i \in M2M(m) : t.q = JoinQ(m, m.refs[i])}
   IN IF e1 # "" THEN e1
      ELSE IF ObsFks(st) # ExpFks(m) THEN SetDiff("foreign keys", ExpFks(m), ObsFks(st))
-     ELSE IF NObsFks(st) # Cardinality(Plain(m)) + 2 * Cardinality(M2M(m)) THEN "a reference is rendered more than once"
+     ELSE IF NObsFks(st) # Cardinality(Plain(m)) + 2 * Cardinality(M2M(m)) THEN "the number of FOREIGN KEYs is not the number of references (one rendered twice, or two rendered as one)"
      ELSE IF joins # ExpJoinTables(m) THEN SetDiff("join tables", ExpJoinTables(m), joins)
      ELSE ""
 
